@@ -146,11 +146,11 @@ def check(desc, col):
 
 
 N = {"quick": 900, "thorough": 9000}
-NSHARDS = 6
+NSHARDS = {"quick": 6, "thorough": 16}
 
 
 def shards(tier, seed):
-    return [{"k": k, "n": N[tier] // NSHARDS, "seed": seed} for k in range(NSHARDS)]
+    return [{"k": k, "n": N[tier] // NSHARDS[tier], "seed": seed} for k in range(NSHARDS[tier])]
 
 
 def run_shard(shard, col):
